@@ -28,6 +28,9 @@ pub fn profile(tier: Tier) -> Profile {
     p.w_reopen = 1;
     p.w_read = 0;
     p.with_alt = true;
+    // I/O faults of the worker (failed / short / torn writes, failed syncs): an acknowledgement
+    // that is Ok must still be backed by what a crash leaves behind
+    p.faults = crate::ops::FaultGen::Io;
     p
 }
 
@@ -71,9 +74,16 @@ impl Prop for C03 {
     }
     fn run_case(&self, case: &Case, ctx: &Ctx) -> Result<CaseInfo, Fail> {
         let mut info = CaseInfo::default();
+        // half of the cases run without injected faults (those keep their clean restarts)
+        let mut eff = case.clone();
+        if case.sel & 1 == 0 {
+            eff.faults.clear();
+        }
+        let case = &eff;
         let rec = crash::record(case, false, false)?;
         let icfg = image_cfg(case);
         let per_point = if ctx.tier == Tier::Quick { 6 } else { 40 };
+        let mut double_budget = if ctx.tier == Tier::Quick { 5 } else { 30 };
         let case_hash = case.hash64();
         let rotation = rec.classes.has("rotation");
         let mut bounds_cache: BTreeMap<usize, crash::Bounds> = BTreeMap::new();
@@ -123,6 +133,46 @@ impl Prop for C03 {
                 }
                 Outcome::Err(_) => *labels.entry("open_err_left_to_C05".into()).or_insert(0) += 1,
                 Outcome::Panic(_) => *labels.entry("open_panic_left_to_C05".into()).or_insert(0) += 1,
+            }
+            // Double crash: the process dies here (unsynced bytes stay in the page cache), the
+            // store is restarted (recovery may truncate, create, unlink — all traced), and then
+            // the machine loses power: whatever recovery did must not depend on bytes that were
+            // never synced. The recovery issues no writes of its own, so the bounds are those of q.
+            if ci.kind == "process" && ci.durable.is_some() && double_budget > 0 && crate::ops::mix(case.sel, ci.q as u64) % 3 == 0 && matches!(out, Outcome::Prefix(_)) {
+                double_budget -= 1;
+                if let Some((rec2, init)) = crash::record_recovery(&ci.img, ci.durable.as_ref(), &icfg, &rec) {
+                    crash::enumerate_images(&rec2, init, crate::ops::mix(case.sel, 78), 4, false, |c2| {
+                        if c2.kind != "power" {
+                            return Ok(());
+                        }
+                        evals += 1;
+                        *labels.entry("image_double_crash".into()).or_insert(0) += 1;
+                        let what = format!("process crash after {} trace events, restart, then power loss after {} events of the recovery ({})", ci.q, c2.q, c2.desc);
+                        match crash::open_image(&c2.img, &icfg, &rec.model, b.issued) {
+                            Outcome::Prefix(i) if i < b.acked => Err(Fail::new(
+                                "double-crash/acknowledged-write-lost",
+                                format!("{what}: recovery shows the state after {i} accepted records but {} were acknowledged (issued {}); image: {}", b.acked, b.issued, crash::describe_image(&c2.img)),
+                            )),
+                            Outcome::Prefix(i) if i > b.issued => Err(Fail::new("double-crash/recovered-more-than-issued", format!("{what}: recovery shows {i} records, only {} were issued", b.issued))),
+                            Outcome::Prefix(_) => {
+                                nt.push(crate::ops::mix(case_hash, crash::image_hash(&c2.img)));
+                                Ok(())
+                            }
+                            Outcome::NoPrefix(snap) => Err(Fail::new(
+                                "double-crash/recovered-state-is-no-prefix",
+                                format!(
+                                    "{what}: open succeeded but state {:?} with {} entries {:?} is not the state after any prefix of the issued writes (acked {}, issued {}); image: {}",
+                                    snap.st, snap.log.len(), crate::driver::brief(&snap.entries()), b.acked, b.issued, crash::describe_image(&c2.img)
+                                ),
+                            )),
+                            Outcome::ReadErr(e) => Err(Fail::new("double-crash/read-error-after-recovery", format!("{what}: open succeeded but read(0,MAX) failed: {e}; image: {}", crash::describe_image(&c2.img)))),
+                            Outcome::Err(_) | Outcome::Panic(_) => {
+                                *labels.entry("open_err_left_to_C05".into()).or_insert(0) += 1;
+                                Ok(())
+                            }
+                        }
+                    })?;
+                }
             }
             Ok(())
         })?;
